@@ -90,6 +90,14 @@ def stress_api(r, idx):
                                    {"selector": "google.cloud.location.Locations.ListLocations", "get": "/v1/{name=projects/*}/locations"},
                                    {"selector": "google.iam.v1.IAMPolicy.GetIamPolicy", "post": "/v1/{resource=projects/*}:getIamPolicy", "body": "*"}]}}
         feats.append("mixins")
+    if idx % 4 in (1, 2):
+        # selective generation: the pruned schema is rebuilt from an allow-list (a set of addresses)
+        allm = [f"{api.package}.{sv.name}.{m.name}" for sv in main.proto.service for m in sv.method]
+        if len(allm) >= 3:
+            yaml = dict(yaml or {})
+            yaml["publishing"] = {"library_settings": [{"version": api.package, "python_settings": {"common": {"selective_gapic_generation": {
+                "methods": r.sample(allm, max(3, len(allm) // 2)), "generate_omitted_as_internal": idx % 8 == 2}}}}]}
+            feats.append("selective-generation" + ("-internal" if idx % 8 == 2 else "-omit"))
     if idx % 2 == 1:
         # fields with special annotations whose mock / sample values are rendered into the emitted tests and snippets
         from google.api import field_info_pb2, field_behavior_pb2
